@@ -23,19 +23,19 @@ from .. import refmodel as R
 
 PID = 'C11'
 RULE = ('cases = (model in Gaussian|GaussianRing|FJC|NFJC|DiscreteKoyama|SingleSite|NoIntra|InterMolecular, N in 2..10^4, sigma/l/lp over the '
-        'documented ranges, k grid = log grid 1e-4..1e3 | the k grid of a sampled Domain(dr|dk,length) incl. dk=0.001 and length up to 32768 | '
+        'documented ranges (DiscreteKoyama: lp from lp_min itself up to 630 l, i.e. from the freely-jointed to the rod-like regime), k grid = log grid 1e-4..1e3 | the k grid of a sampled Domain(dr|dk,length) incl. dk=0.001 and length up to 32768 | '
         'random k); each case runs calculate under the contract plus subset / reversed / single-k calls, an FP-trap replica and the limit probes; '
         'DiscreteKoyama also gets invalid-parameter cases; non-trivial = chain model evaluated on >= 8 wavenumbers spanning k*sigma < 0.1 and > 10 or a '
         'Domain grid; distinct = distinct case digests')
 ASSUMPTIONS = ['defining sum (1/N) sum_ij w_|i-j|(k) evaluated term by term in double precision is the reference (tolerance 1e-7*N)',
-               'DiscreteKoyama: w_n taken from the object\'s own kernel; its 2nd moment is checked against the freely rotating chain, the 4th moment has no independent reference',
+               'DiscreteKoyama: <r_n^2> and <r_n^4> of the documented chain (fixed bond length, free rotation, Boltzmann-weighted bond angle restricted by the no-overlap condition, <cos> fixed by lp) come from an independent step-by-step recursion with Gauss-Legendre bond-angle moments (refmodel.dk_moments); only within 0.1 % of the freely-jointed limit, where the class documents a linearisation, is the object\'s own kernel used in the defining sum',
                'NFJC: only N=3 has an analytic reference; larger N are covered by the sum rules only']
 MINIMA = {'quick': {'omega.calculate:G': 100, 'omega.calculate:FJC': 100, 'omega.calculate:RING': 100, 'omega.calculate:DK': 50, 'omega.calculate:trivial': 50,
-                    'k_independence_probe': 300, 'dk_invalid_params': 30},
+                    'k_independence_probe': 300, 'dk_invalid_params': 30, 'dk_independent_moment_reference': 100},
           'thorough': {'omega.calculate:G': 700, 'omega.calculate:FJC': 700, 'omega.calculate:RING': 700, 'omega.calculate:DK': 400, 'omega.calculate:trivial': 300,
                        'k_independence_probe': 400, 'dk_invalid_params': 100}}
 SHARDS = {'quick': 8, 'thorough': 16}
-TIME_BUDGET = {'quick': 45, 'thorough': 280}
+TIME_BUDGET = {'quick': 70, 'thorough': 280}
 
 _S = {'ctx': None, 'on': True}
 CLASSES = [('G', Gaussian), ('RING', GaussianRing), ('FJC', FreelyJointedChain), ('NFJC', NonOverlappingFreelyJointedChain), ('DK', DiscreteKoyama),
@@ -80,7 +80,16 @@ def reference(obj, kind, k):
     if kind in ('NI', 'IM'):
         return np.zeros_like(k), 1
     if kind == 'DK':
-        return koyama_ref(obj, k), int(obj.length)
+        # independent of the shipped moment formulas wherever the model is evaluated as documented: the exact second and fourth
+        # moments of the chain come from a step-by-step recursion (refmodel.dk_moments).  Within 0.1 % of the freely-jointed
+        # limit the class documents a linearised bond-angle average; there the defining sum is taken with the object's own kernel.
+        N = int(obj.length)
+        if (obj.lp - obj.lp_min) / obj.lp_min >= 0.001 and N <= 400:
+            ref = R.dk_ref(obj.sigma, obj.l, N, obj.lp, k)
+            if ref is not None:
+                _S['ctx'].hook('dk_independent_moment_reference')
+                return ref, N
+        return koyama_ref(obj, k), N
     if kind == 'NFJC':
         return (nfjc3_ref(k, obj.l) if int(obj.length) == 3 else None), int(obj.length)
     return None, None
@@ -157,7 +166,7 @@ def cases(ctx):
         N = int(rng.choice(NS)) if rng.random() < 0.7 else int(rng.integers(2, 300))
         grid = str(rng.choice(['log', 'domain_dr', 'domain_dk', 'random', 'tiny_dk']))
         if m == 'DK':
-            N = min(N, 1000 if ctx.thorough() else 100)
+            N = min(N, 200 if ctx.thorough() else 60)        # calculate() makes N(N-1)/2 kernel evaluations
         if m == 'NFJC':
             N = int(rng.choice([3, 3, 4, 6]))
         if m == 'RING' and N > 1000 and not ctx.thorough():
@@ -206,7 +215,7 @@ def build(model, N, rng):
         sigma = float(rng.choice([1.0, 1.0, 0.8, 1.3]))
         l = float(sigma * rng.choice([1.0, 1.0, 0.8, 1.5, 0.6]))
         lp_min = 4.0 * l ** 3 / (4.0 * l ** 2 - sigma ** 2)
-        mode = str(rng.choice(['near', 'at', 'mid', 'mid', 'stiff', 'doc']))
+        mode = str(rng.choice(['near', 'at', 'mid', 'mid', 'stiff', 'doc', 'rod', 'rod']))
         if mode == 'near':
             lp = lp_min * (1 + float(rng.uniform(0, 0.0009)))
         elif mode == 'at':
@@ -215,9 +224,11 @@ def build(model, N, rng):
             lp = lp_min * float(rng.uniform(1.01, 3.0))
         elif mode == 'stiff':
             lp = lp_min * float(rng.uniform(3.0, 20.0))
+        elif mode == 'rod':
+            lp = max(lp_min * 3.0, l * float(10 ** rng.uniform(1.3, 2.8)))       # towards the rigid-rod limit the model is meant to reach
         else:
             sigma, l, lp = 1.0, 1.0, 1.43
-        return (O.DiscreteKoyama(sigma=sigma, l=l, length=N, lp=lp), {'sigma': sigma, 'l': l, 'lp': lp}, l)
+        return (O.DiscreteKoyama(sigma=sigma, l=l, length=N, lp=lp), {'sigma': sigma, 'l': l, 'lp': lp, 'regime': mode}, l)
     if model == 'SS':
         return (O.SingleSite(), {}, 1.0)
     if model == 'NI':
